@@ -87,6 +87,9 @@ class LangServer:
             if k.startswith("debug_") and k != "debug_log":
                 continue
             setattr(self, k, v)
+        # A list of macro names means the same on the command line as in the file
+        if isinstance(self.pp_defs, list):
+            self.pp_defs = {key: "" for key in self.pp_defs}
 
         self.sync_type: int = 2 if self.incremental_sync else 1
         self.post_messages = []
@@ -1668,6 +1671,9 @@ class LangServer:
             os.path.isfile(os.path.join(self.root_path, f)) for f in default_conf_files
         ]
         if not any(present_conf_files):
+            # A file that was asked for by name is missed, the default ones are not
+            if self.config not in (".fortlsrc", ".fortls.json", ".fortls"):
+                self.post_message(f"Configuration file '{self.config}' not found")
             return None
 
         # Load the first config file found
@@ -1709,6 +1715,11 @@ class LangServer:
         except ValueError as e:
             msg = f'Error: "{e}" while reading "{self.config}" Configuration file'
             self.post_message(msg)
+
+        # Nested too deeply for the parser
+        except RecursionError:
+            msg = f'Error: "nested too deeply" while reading "{self.config}"'
+            self.post_message(msg + " Configuration file")
 
     @staticmethod
     def _check_config_types(config_dict: dict) -> None:
